@@ -1,0 +1,79 @@
+//go:build verif
+
+// Contracts for the transaction use case (Begin / Commit / Rollback), read by /verif/govc.
+package transaction
+
+//@ pure func depsOk(u *UseCase) bool = u != nil && u.cleaner != nil && u.fRepo != nil && u.txRepo != nil && u.idGen != nil
+
+// ---- interfaces: the registry as ghost state world.reg / world.level / world.begin ----
+
+//@ iface txRepository.Store
+//@   params ctx, tx
+//@   modifies world.reg, world.level, world.begin
+//@   ensures ok:     result == nil <==> !old(world.reg[tx.Id])
+//@   ensures class:  result != nil ==> is(result, fs_db.ErrTxAlreadyExists)
+//@   ensures added:  result == nil ==> world.reg[tx.Id] && world.level[tx.Id] == tx.IsoLevel && world.begin[tx.Id] == tx.Seq
+//@   ensures others: forall i string :: (i != tx.Id || result != nil) ==> world.reg[i] == old(world.reg[i]) && world.level[i] == old(world.level[i]) && world.begin[i] == old(world.begin[i])
+
+//@ iface txRepository.Delete
+//@   params ctx, id
+//@   modifies world.reg
+//@   ensures ok:      result1 == nil <==> old(world.reg[id])
+//@   ensures class:   result1 != nil ==> is(result1, fs_db.ErrTxNotFound)
+//@   ensures removed: !world.reg[id]
+//@   ensures tx:      result1 == nil ==> result0.Id == id && result0.IsoLevel == world.level[id] && result0.Seq == world.begin[id]
+//@   ensures others:  forall i string :: i != id ==> world.reg[i] == old(world.reg[i])
+
+// Commit hands the core the transaction's begin sequence exactly for the snapshot levels:
+// ReadUncommitted/ReadCommitted commits are never checked for conflicts, RepeatableRead/
+// Serializable commits are checked against their begin sequence; the target is the main transaction.
+//@ iface fileRepository.UpdateTx
+//@   params ctx, oldTxId, newTxId, filter
+//@   requires target: newTxId == model.MainTxId && filter.TxId == nil
+//@   requires plain:  (world.level[oldTxId] == fs_db.IsoLevelReadUncommitted || world.level[oldTxId] == fs_db.IsoLevelReadCommitted) ==> filter.BeforeSeq == nil
+//@   requires snap:   (world.level[oldTxId] == fs_db.IsoLevelRepeatableRead || world.level[oldTxId] == fs_db.IsoLevelSerializable) ==>
+//@                       filter.BeforeSeq != nil && *filter.BeforeSeq == world.begin[oldTxId]
+//@   requires ended:  !world.reg[oldTxId]
+
+//@ iface fileRepository.DeleteTx
+//@   params ctx, txId
+//@   requires ended:  !world.reg[txId]
+
+// handed: content ids whose versions have been handed to the cleaner for deletion
+//@ ghost field (world).handed set[string]
+//@ iface cleaner.DeleteFilesAsync
+//@   params ctx, files
+//@   modifies world.handed
+//@   ensures handed: forall i int :: 0 <= i && i < len(files) ==> world.handed[files[i].ContentId]
+//@   ensures keeps:  forall c string :: old(world.handed[c]) ==> world.handed[c]
+
+//@ iface generator.Generate
+//@   ensures fresh: uuidCanonical(result) && !world.reg[result] && result != model.MainTxId
+
+// ---- use case ----
+
+//@ func (*UseCase).Begin
+//@   requires deps:   depsOk(u)
+//@   modifies world.reg, world.level, world.begin, cell[uint64]
+//@   ensures  opened: result1 == nil ==> world.reg[result0] && !old(world.reg[result0]) && world.level[result0] == isoLevel &&
+//@                       world.begin[result0] > old(sequence.seq) && result0 != model.MainTxId
+//@   ensures  others: forall i string :: (result1 != nil || i != result0) ==> world.reg[i] == old(world.reg[i])
+
+// A finished or unknown transaction cannot be committed: ErrTxNotFound, nothing changes.
+// Whatever the outcome, the transaction is no longer registered afterwards.
+//@ func (*UseCase).Commit
+//@   requires deps:     depsOk(u)
+//@   modifies world.reg, world.handed
+//@   ensures  finished: !old(world.reg[ctxTxId(ctx)]) ==> result != nil && is(result, fs_db.ErrTxNotFound)
+//@   ensures  ended:    !world.reg[ctxTxId(ctx)]
+//@   ensures  others:   forall i string :: i != ctxTxId(ctx) ==> world.reg[i] == old(world.reg[i])
+//@   exitassert cleanup: old(world.reg[ctxTxId(ctx)]) ==> forall i int :: 0 <= i && i < len(deleteFiles) ==> world.handed[deleteFiles[i].ContentId]
+
+// Rollback of a finished or unknown transaction is a harmless no-op.
+//@ func (*UseCase).Rollback
+//@   requires deps:     depsOk(u)
+//@   modifies world.reg, world.handed
+//@   ensures  noop:     !old(world.reg[ctxTxId(ctx)]) ==> result == nil
+//@   ensures  ended:    result == nil ==> !world.reg[ctxTxId(ctx)]
+//@   ensures  others:   forall i string :: i != ctxTxId(ctx) ==> world.reg[i] == old(world.reg[i])
+//@   exitassert cleanup: old(world.reg[ctxTxId(ctx)]) && result == nil ==> forall i int :: 0 <= i && i < len(deleteFiles) ==> world.handed[deleteFiles[i].ContentId]
